@@ -157,6 +157,11 @@ def post_exec(module):
             unwrapped[name] = f
             d[name] = f.__wrapped__
     d["__symx_lru__"] = unwrapped
+    for name, cls in list(d.items()):
+        if isinstance(cls, type) and cls.__module__ == module.__name__:
+            for an, f in list(vars(cls).items()):
+                if hasattr(f, "__wrapped__") and hasattr(f, "cache_info"):
+                    setattr(cls, an, f.__wrapped__)
 
 
 class _Finder(importlib.abc.MetaPathFinder):
